@@ -152,7 +152,8 @@ func runC05(c *eng.Ctx) {
 		{godi.Transient, godi.Transient, godi.Transient, godi.Transient},
 		{godi.Scoped, godi.Singleton, godi.Scoped, godi.Transient}, // may conflict: filtered by the model
 	}
-	exec := func(idx int, s *Spec, m *Model, kind string) {
+	var exec func(idx int, s *Spec, m *Model, kind string)
+	execInner := func(idx int, s *Spec, m *Model, kind string) {
 		r := NewRun(s, m, nil, nil)
 		r.Build()
 		cls := r.Results[0].Class
@@ -195,6 +196,9 @@ func runC05(c *eng.Ctx) {
 		if c.R.WantSample() && m.Cyclic && kind == "random" {
 			c.R.Sample(sampleOf(r, map[string]any{"kind": kind, "model_cycle": describeCycle(m)}))
 		}
+	}
+	exec = func(idx int, s *Spec, m *Model, kind string) {
+		cr.guard(idx, func() string { return "spec:\n  " + strings.Join(s.Lines(), "\n  ") }, func() { execInner(idx, s, m, kind) })
 	}
 	// directed witnesses
 	directed := []*Spec{
